@@ -75,6 +75,9 @@ func init() {
 	u(sc("xpush", opt(oWQ, 1), add(), hold(1), send(), send(), send(), opt(oFNP, 1), drop(1)))
 	u(sc("xpush", opt(oWQ, 1), opt(oFNP, 1), add(), hold(1), send(), send(), send(), relFail(1)))
 	u(sc("xpush", opt(oWQ, 1), opt(oFNP, 1), opt(oFNP, 0), send(), send(), add(), hold(1), send(), send(), drop(1)))
+	// the last peer leaves, a peer returns, the last peer leaves again: sends in between behave as with any connected peer
+	u(sc("xpush", opt(oWQ, 2), opt(oFNP, 1), add(), send(), drop(1), send(), add(), send(), send(), send(), drop(2), send(), add(), send(), drop(3), closesock()))
+	u(sc("xpush", opt(oWQ, 2), opt(oFNP, 1), add(), drop(1), add(), send(), send(), send(), send(), send(), send(), drop(2), add(), closesock()))
 	t(sc("xpush", opt(oWQ, 1), opt(oFNP, 1), opt(oSD, 100), add(), hold(1), send(), send(), send(), pass(40), drop(1), pass(140), send()))
 	t(sc("xpush", opt(oWQ, 1), opt(oFNP, 1), opt(oSD, 60), add(), hold(1), send(), send(), send(), pass(140), send(), drop(1), pass(140)))
 
